@@ -603,6 +603,20 @@ func main() {
 	wg.Wait()
 	ociauth.VerifResetClock()
 
+	{
+		// real-time interleavings of two requests to one host (the clock hook is back to the wall clock)
+		var iwg sync.WaitGroup
+		for i, n := 0, run.N(8, 64); i < n; i++ {
+			iwg.Add(1)
+			go func() { defer iwg.Done(); tokenRetryVersusBasicChallenge(run, i) }()
+			if i%8 == 7 {
+				iwg.Wait()
+			}
+		}
+		iwg.Wait()
+		run.FloorCounter("token_retry_versus_basic_challenge/retry_reached", 4)
+	}
+
 	for _, s := range authsim.Shapes {
 		run.Floor("challenge shape seen: "+s.Name, 1, int(run.Counter("shape_seen/"+s.Name)))
 	}
